@@ -633,11 +633,11 @@ def rule_y14(ctx, funcs: List[Func]) -> None:
         donors = []
         for c in own_nodes(f.node):
             if isinstance(c, ast.Call) and isinstance(c.func, ast.Attribute) and c.func.attr == "SetNumExplicitHs" and c.args and isinstance(c.args[0], ast.Constant) and c.args[0].value == 0:
-                donors.append((unparse(c.func.value), c))
+                donors.append((unparse(c.func.value), c, "count-set-to-zero"))
         for t in own_nodes(f.node):
             if isinstance(t, ast.Tuple) and len(t.elts) == 2 and isinstance(t.elts[1], ast.UnaryOp) and isinstance(t.elts[1].op, ast.USub) and isinstance(t.elts[0], ast.Name):
-                donors.append(("GetAtomWithIdx(%s)" % t.elts[0].id, t))
-        for recv, site in donors:
+                donors.append(("GetAtomWithIdx(%s)" % t.elts[0].id, t, "hydrogen-moved-away"))
+        for recv, site, how in donors:
             allowed = {0, 1, 2, 3}
             nid = cfg.node_of(site)
             for cond, pol in cfg.guards(nid) if nid is not None else []:
@@ -662,7 +662,7 @@ def rule_y14(ctx, funcs: List[Func]) -> None:
             ok = 0 not in allowed
             ctx.instance("C20-Y14", "%s: hydrogen donor %s reaches the rewrite with hydrogen counts %s" % (f.name, recv, sorted(allowed)), f.loc(site), ok=ok)
             if not ok:
-                ctx.finding("C20-Y14", "%s.%s:donor-without-hydrogen:%s" % (f.qualname.split(".")[-2], f.name, recv), f.loc(site), "%s moves a hydrogen away from %s without refusing the rewrite when that atom has none (counts that reach the rewrite: %s): for a radical or cationic oxygen ([O]C=C, C=C[O+]) the receiving atom gains a hydrogen the molecule never had" % (f.name, recv, sorted(allowed)))
+                ctx.finding("C20-Y14", "%s.%s:donor-without-hydrogen:%s" % (f.qualname.split(".")[-2], f.name, how), f.loc(site), "%s moves a hydrogen away from %s without refusing the rewrite when that atom has none (counts that reach the rewrite: %s): for a radical or cationic oxygen ([O]C=C, C=C[O+]) the receiving atom gains a hydrogen the molecule never had" % (f.name, recv, sorted(allowed)))
 
 
 def rule_y15(ctx, funcs: List[Func]) -> None:
